@@ -1,7 +1,9 @@
 import Sozu.Hub.Lemmas
 /-
 C09 — the main process's verdict to a client matches what the workers did.
-Only property statements (`C09_*`) and their non-vacuity examples live here.
+Only property statements (`C09_*`), the predicates they mention and their
+non-vacuity examples live here; every proof longer than an application is in
+`Lemmas.lean`.
 
 The theorems are stated for `Hub.init fwd excl ret T n`: any worker timeout `T`,
 any number of workers `n`, and the code-shape flags the translator reads from
@@ -9,45 +11,82 @@ the source (`fwd`: `handle_finishing_task` forwards `timed_out`; `excl`:
 `StopTask::on_finish` does not send Ok after its timed-out failure; `ret`:
 `handle_worker_response` retires an id once it got a terminal answer). The code
 as it was before the C09 repairs is `false false false`, the code as it is now
-`true true true`; the driver runs `Hub.ofCode`, i.e. the
-values of `Sozu.Consts.hub*` (a fourth flag, whether `request_type: None`,
-LaunchWorker and ReturnListenSockets are answered, only selects the verb class
-those requests are given: `Verb.noAnswer` or an immediate failure).
-Event sequences (`List Op`) are arbitrary: any interleaving of client requests,
-worker responses (any status, any id, known or not, duplicated, late), worker
+`true true true`; the driver runs `Hub.ofCode`, i.e. the values of
+`Sozu.Consts.hub*` (a fourth flag, whether `request_type: None`, LaunchWorker
+and ReturnListenSockets are answered, selects the verb class those requests are
+given by `ClientVerb.classify`). Event sequences (`List Op`) are arbitrary: any
+interleaving of client requests from any number of clients, worker responses
+(any status, any id, known or not, duplicated, late), failed sends, worker
 channel closes, client hang-ups, time advances and passes of the run loop.
+
+What is still FALSE for the code as it is now is stated through four explicit
+predicates — `Hangs` (F36), `ShutDown` (F37), `VerdictIgnoresWorkers` (F38,
+F39) — under whose negation the properties hold for EVERY verb, and by
+counterexample theorems showing each predicate is reachable.
 -/
 set_option linter.unusedSimpArgs false
 set_option linter.unusedVariables false
 namespace Sozu.Hub
 
+-- =========================================================== the open findings ==
+
+/-- F36 `no-deadline-request-hangs`: request `r` has a pending task gathered with
+    `Timeout::None` (SoftStop, LoadState) for which some id is still unanswered -/
+def Hangs (r : Nat) (h : Hub) : Prop :=
+  ∃ t ∈ h.tasks, t.req = r ∧ t.verb.hasDeadline = false ∧ hasFinished t = false
+
+/-- F37 `pending-request-dropped-at-stop`: a stop verb completed, the main process
+    is gone (pending requests of other clients are never answered) -/
+def ShutDown (h : Hub) : Prop := h.run = .exited
+
+/-- F38 / F39 `query-ok-without-all-workers`, `stop-ok-without-all-workers`: verbs
+    whose `on_finish` does not look at what the workers answered -/
+def VerdictIgnoresWorkers (v : Verb) : Prop := v = .query ∨ v = .softStop ∨ v = .hardStop
+
+instance (v : Verb) : Decidable (VerdictIgnoresWorkers v) := by unfold VerdictIgnoresWorkers; infer_instance
+
 -- ===================================================== one final answer ==
 
 /-- **C09 (never two verdicts).** For every event sequence, no request is ever
     given more than one final answer — provided a finished task produces one
-    verdict, which holds for the code as written (`fwd = false`) and for the
-    repaired shape (`excl = true`). -/
+    verdict, which holds for the code as it is now (`excl = true`) and as it
+    was (`fwd = false`). -/
 theorem C09_at_most_one_final (fwd excl ret : Bool) (T n : Nat) (hc : fwd = false ∨ excl = true)
     (ops : List Op) (r : Nat) :
     finalsOf r (run (Hub.init fwd excl ret T n) ops).log ≤ 1 := by
-  have hg := good_init fwd excl ret T n hc
-  have := acct_le_one_run _ ops hg (fun r => by rw [acct_init]; omega) r
+  have := acct_le_one_run _ ops (good_init fwd excl ret T n hc) (fun r => by rw [acct_init]; omega) r
   simp only [acct] at this; omega
 
-example : (false = false ∨ false = true) := Or.inl rfl
+example : finalsOf 0 (run (Hub.init true true true 10 1) [.request 0 .hardStop, .advance 11, .tick]).log = 1 := by decide
 
-/-- forwarding `timed_out` alone is not enough: `StopTask::on_finish` then sends
-    the timed-out failure **and** the Ok — two final answers for one HardStop. -/
+/-- forwarding `timed_out` alone would not be enough: `StopTask::on_finish` then
+    sends the timed-out failure **and** the Ok — two final answers for one HardStop. -/
 theorem C09_at_most_one_final_counterexample :
     finalsOf 0 (run (Hub.init true false false 10 1) [.request 0 .hardStop, .advance 11, .tick]).log = 2 := by
   decide
 
-/-- **C09 (exactly one final answer).** A request accepted by a running main
-    process, for a verb that is answered at once or gathered under the worker
-    timeout, has exactly one final answer after the first pass of the run loop
-    that happens later than `T` after the request — whatever the workers,
-    the other clients and the other requests did in between and do afterwards
-    (`mid`, `post` arbitrary), as long as the main process has not shut down. -/
+/-- **C09 (exactly one final answer — every verb, every code shape with one
+    verdict per task).** A request accepted by a running main process, for any
+    verb that is answered at all, whose pending tasks are all releasable
+    (finished, or past their deadline) at a run-loop pass that happens while the
+    main process still runs, has exactly one final answer from then on —
+    whatever the workers, the other clients and the other requests did in
+    between and do afterwards. -/
+theorem C09_one_final_answer_when_releasable (fwd excl ret : Bool) (T n : Nat) (hc : fwd = false ∨ excl = true)
+    (pre mid post : List Op) (c : Nat) (v : Verb) (hans : v.answers = true)
+    (halive : ¬ ShutDown (run (Hub.init fwd excl ret T n) pre))
+    (halive' : ¬ ShutDown (run (Hub.init fwd excl ret T n) (pre ++ [.request c v] ++ mid)))
+    (hrel : ∀ t ∈ (run (Hub.init fwd excl ret T n) (pre ++ [.request c v] ++ mid)).tasks,
+        t.req = (run (Hub.init fwd excl ret T n) pre).nextReq →
+        isDone (run (Hub.init fwd excl ret T n) (pre ++ [.request c v] ++ mid)).now t = true) :
+    finalsOf (run (Hub.init fwd excl ret T n) pre).nextReq
+      (run (Hub.init fwd excl ret T n) (pre ++ [.request c v] ++ mid ++ [.tick] ++ post)).log = 1 :=
+  one_final_core fwd excl ret T n hc pre mid post c v hans halive halive' hrel
+
+/-- **C09 (exactly one final answer), flag-parametric.** For a verb answered at
+    once or gathered under the worker timeout: exactly one final answer after
+    the first run-loop pass later than `T` after the request, while the main
+    process runs. -/
 theorem C09_one_final_answer_partial (fwd excl ret : Bool) (T n : Nat) (hc : fwd = false ∨ excl = true)
     (pre mid post : List Op) (c : Nat) (v : Verb)
     (hv : v.hasDeadline = true ∨ v.immediate.isSome = true)
@@ -56,81 +95,10 @@ theorem C09_one_final_answer_partial (fwd excl ret : Bool) (T n : Nat) (hc : fwd
     (hlate : (run (Hub.init fwd excl ret T n) pre).now + T
         < (run (Hub.init fwd excl ret T n) (pre ++ [.request c v] ++ mid)).now) :
     finalsOf (run (Hub.init fwd excl ret T n) pre).nextReq
-      (run (Hub.init fwd excl ret T n) (pre ++ [.request c v] ++ mid ++ [.tick] ++ post)).log = 1 := by
-  -- names
-  generalize hs0 : Hub.init fwd excl ret T n = s0 at *
-  have hg0 : Good s0 := hs0 ▸ good_init fwd excl ret T n hc
-  have hi0 : Inv s0 := hs0 ▸ inv_init fwd excl ret T n
-  have hT : s0.timeout = T := by rw [← hs0]; rfl
-  generalize hs1 : run s0 pre = s1 at *
-  have hg1 : Good s1 := hs1 ▸ good_run s0 pre hg0
-  have hi1 : Inv s1 := hs1 ▸ inv_run s0 pre hi0
-  have hT1 : s1.timeout = T := by rw [← hs1, (run_cfg s0 pre).2.2, hT]
-  let r := s1.nextReq
-  let s2 := step s1 (.request c v)
-  have hg2 : Good s2 := good_step s1 _ hg1
-  have hi2 : Inv s2 := inv_step s1 _ hi1
-  have hr2 : r < s2.nextReq := by
-    have := step_nextReq s1 (.request c v); simp only [halive, if_false] at this
-    show s1.nextReq < (step s1 (.request c v)).nextReq; omega
-  have hans : v.answers = true := by
-    simp only [Verb.answers, Bool.or_eq_true]
-    rcases hv with hv | hv
-    · left; cases v <;> simp_all [Verb.hasDeadline, Verb.gathers]
-    · right; exact hv
-  have ha2 : acct r s2 = 1 := by
-    have := acct_request_new s1 c v hg1.bounds halive; rw [hans] at this; simpa using this
-  have ho2 : Owned r c v s1.now s2 := owned_request s1 c v hg1.bounds
-  -- after `mid`
-  have e3 : run s0 (pre ++ [.request c v] ++ mid) = run s2 mid := by
-    rw [run_append, run_append, hs1]; rfl
-  rw [e3] at halive' hlate
-  generalize hs3 : run s2 mid = s3 at *
-  have hg3 : Good s3 := hs3 ▸ good_run s2 mid hg2
-  have hi3 : Inv s3 := hs3 ▸ inv_run s2 mid hi2
-  have hr3 : r < s3.nextReq := by
-    rw [← hs3]; clear hs3
-    have : ∀ (h : Hub) (ops : List Op), h.nextReq ≤ (run h ops).nextReq := by
-      intro h ops; induction ops generalizing h with
-      | nil => exact Nat.le_refl _
-      | cons o os ih => rw [run_cons]; exact Nat.le_trans (step_nextReq_mono h o) (ih _)
-    exact Nat.lt_of_lt_of_le hr2 (this s2 mid)
-  have ha3 : acct r s3 = 1 := by rw [← hs3, acct_run_old s2 mid hg2 r hr2]; exact ha2
-  have ho3 : Owned r c v s1.now s3 := hs3 ▸ owned_run s2 mid hg2.bounds r c v s1.now hr2 ho2
-  have hT3 : s3.timeout = T := by
-    rw [← hs3, (run_cfg s2 mid).2.2]; show (step s1 _).timeout = T; rw [(step_cfg s1 _).2.2, hT1]
-  -- the pass of the run loop
-  let s4 := step s3 .tick
-  have hg4 : Good s4 := good_step s3 _ hg3
-  have ha4 : acct r s4 = 1 := by rw [acct_step_old s3 .tick hg3.bounds hg3.one r hr3]; exact ha3
-  have hp4 : pendingOf r s4.tasks = 0 := by
-    apply pending_zero_of
-    intro t ht hreq
-    have hnd := tick_clears s3 halive' t ht
-    have hmem : t ∈ s3.tasks := by
-      simp only [s4, step, tick, halive', if_false, List.mem_filter] at ht; exact ht.1
-    obtain ⟨_, hverb, hborn⟩ := ho3 t hmem hreq
-    have hgath := (hi3.bounds.tasks_lt t hmem).2.2
-    rcases hv with hv | hv
-    · have hd := (hi3.timed t hmem).2
-      rw [hverb, hv, if_pos rfl, hborn, hT3] at hd
-      simp only [isDone, deadlinePassed, hd, Bool.or_eq_false_iff, decide_eq_false_iff_not] at hnd
-      omega
-    · rw [hverb] at hgath
-      cases v <;> simp_all [Verb.gathers, Verb.immediate]
-  have hf4 : finalsOf r s4.log = 1 := by simp only [acct] at ha4; omega
-  -- afterwards
-  have e5 : run s0 (pre ++ [.request c v] ++ mid ++ [.tick] ++ post) = run s4 post := by
-    rw [run_append, run_append, e3]; rfl
-  rw [e5]
-  have hr4 : r < s4.nextReq := Nat.lt_of_lt_of_le hr3 (step_nextReq_mono s3 .tick)
-  have ha5 : acct r (run s4 post) = 1 := by rw [acct_run_old s4 post hg4 r hr4]; exact ha4
-  have hm := finals_run_mono s4 post r
-  simp only [acct] at ha5
-  show finalsOf r (run s4 post).log = 1
-  omega
+      (run (Hub.init fwd excl ret T n) (pre ++ [.request c v] ++ mid ++ [.tick] ++ post)).log = 1 :=
+  one_final_deadline_core fwd excl ret T n hc pre mid post c v hv halive halive' hlate
 
-/-- the hypotheses are satisfiable, and with a silent worker too -/
+/-- the hypotheses are satisfiable, with a silent worker too -/
 example :
     let s := Hub.init false false false 10 2
     (run s []).run ≠ .exited ∧
@@ -139,23 +107,46 @@ example :
     finalsOf 0 (run s ([] ++ [.request 0 .worker] ++ [.advance 11] ++ [.tick] ++ [])).log = 1 := by
   decide
 
-/-- every request the command socket carries, except the two gathered without a
-    deadline, is a verb answered at once or gathered under the worker timeout —
-    once the unimplemented requests are answered (`answers = true`) -/
-theorem classify_answered (cv : ClientVerb) (h1 : cv ≠ .softStop) (h2 : ∀ k, cv ≠ .load k) :
-    (cv.classify true).hasDeadline = true ∨ (cv.classify true).immediate.isSome = true := by
-  cases cv <;> simp_all [ClientVerb.classify, Verb.hasDeadline, Verb.immediate]
+/-- **C09 (exactly one final answer), the code as it is now, EVERY client
+    request.** Every request the command socket can carry (`cv` arbitrary:
+    mutating, rejected by the main state, query, status, metrics, list,
+    HardStop, SoftStop, LoadState of any file, `request_type: None`,
+    LaunchWorker, ReturnListenSockets), accepted by a running main process, has
+    exactly one final answer after the first run-loop pass later than the
+    worker timeout — whatever the workers do — unless one of the two open
+    findings applies at that pass: the main process was shut down by a stop
+    verb (`ShutDown`, F37), or the request is gathered without a deadline and a
+    worker has not answered (`Hangs`, F36). -/
+theorem C09_one_final_answer_all_verbs (ret : Bool) (T n : Nat)
+    (pre mid post : List Op) (c : Nat) (cv : ClientVerb)
+    (halive : ¬ ShutDown (run (Hub.init true true ret T n) pre))
+    (halive' : ¬ ShutDown (run (Hub.init true true ret T n) (pre ++ [.request c (cv.classify true)] ++ mid)))
+    (hnohang : ¬ Hangs (run (Hub.init true true ret T n) pre).nextReq
+        (run (Hub.init true true ret T n) (pre ++ [.request c (cv.classify true)] ++ mid)))
+    (hlate : (run (Hub.init true true ret T n) pre).now + T
+        < (run (Hub.init true true ret T n) (pre ++ [.request c (cv.classify true)] ++ mid)).now) :
+    finalsOf (run (Hub.init true true ret T n) pre).nextReq
+      (run (Hub.init true true ret T n)
+        (pre ++ [.request c (cv.classify true)] ++ mid ++ [.tick] ++ post)).log = 1 :=
+  one_final_core true true ret T n (Or.inr rfl) pre mid post c _ (classify_answers cv) halive halive'
+    (releasable_all_verbs true true ret T n pre mid c _ halive hlate hnohang)
 
-/-- **C09 (exactly one final answer), the repaired code, full strength.** With
-    the code as it is now, EVERY client request accepted by a running main
-    process — mutating, rejected by the main state, query, status, metrics,
-    list, HardStop, LoadState of a missing file, `request_type: None`,
-    LaunchWorker, ReturnListenSockets — has exactly one final answer after the
-    first run-loop pass later than the worker timeout, whatever the workers do
-    (silent, dead, duplicate, late) and whatever else happens, while the main
-    process runs. The two exceptions are the verbs gathered with
-    `Timeout::None`, SoftStop and LoadState of an existing file (open finding,
-    `C09_one_final_answer_counterexample_no_deadline`). -/
+/-- a LoadState of two requests with one worker that answers both (one Ok, one
+    Failure), then time passes -/
+def loadAnsweredOps : List Op :=
+  [] ++ [.request 0 ((ClientVerb.load 2).classify true)] ++
+    [.response 0 ⟨0, 0, 1⟩ .ok, .response 0 ⟨0, 0, 2⟩ .failure, .advance 11]
+
+/-- non-vacuity: neither `ShutDown` nor `Hangs` at the pass, one final answer after it -/
+example :
+    (run (Hub.init true true true 10 1) loadAnsweredOps).run ≠ .exited ∧
+    (run (Hub.init true true true 10 1) loadAnsweredOps).tasks.all
+      (fun t => !(t.req = 0 && t.verb.hasDeadline = false && hasFinished t = false)) = true ∧
+    finalsOf 0 (run (Hub.init true true true 10 1) (loadAnsweredOps ++ [.tick] ++ [])).log = 1 := by
+  decide
+
+/-- **C09 (exactly one final answer), the code as it is now, verbs with a deadline
+    or answered at once** — no side condition but "the main process runs". -/
 theorem C09_one_final_answer (ret : Bool) (T n : Nat)
     (pre mid post : List Op) (c : Nat) (cv : ClientVerb)
     (h1 : cv ≠ .softStop) (h2 : ∀ k, cv ≠ .load k)
@@ -166,18 +157,14 @@ theorem C09_one_final_answer (ret : Bool) (T n : Nat)
     finalsOf (run (Hub.init true true ret T n) pre).nextReq
       (run (Hub.init true true ret T n)
         (pre ++ [.request c (cv.classify true)] ++ mid ++ [.tick] ++ post)).log = 1 :=
-  C09_one_final_answer_partial true true ret T n (Or.inr rfl) pre mid post c _
+  one_final_deadline_core true true ret T n (Or.inr rfl) pre mid post c _
     (classify_answered cv h1 h2) halive halive' hlate
 
-/-- non-vacuity on the repaired shape: a silent worker (one failure verdict at
-    the deadline), an unimplemented request (one failure at once) -/
 example :
     finalsOf 0 (run (Hub.init true true true 10 2)
       ([] ++ [.request 0 (ClientVerb.add.classify true)] ++ [.advance 11] ++ [.tick] ++ [])).log = 1 ∧
     finalsOf 0 (run (Hub.init true true true 10 2)
-      ([] ++ [.request 0 (ClientVerb.launchWorker.classify true)] ++ [.advance 11] ++ [.tick] ++ [])).log = 1 ∧
-    finalsOf 0 (run (Hub.init true true true 10 2)
-      ([] ++ [.request 0 (ClientVerb.hardStop.classify true)] ++ [.advance 11])).log = 0 := by
+      ([] ++ [.request 0 (ClientVerb.launchWorker.classify true)] ++ [.advance 11] ++ [.tick] ++ [])).log = 1 := by
   decide
 
 /-- F21 (repaired in /repo): before the repair `request_type: None`, `LaunchWorker`,
@@ -189,26 +176,23 @@ theorem C09_one_final_answer_counterexample_no_answer_verb :
       [.request 0 (ClientVerb.launchWorker.classify true), .advance 1000, .tick]).log = 1 := by
   decide
 
-/-- `SoftStop` and `LoadState` are gathered with `Timeout::None`: one silent (or
-    dead) worker and the client never gets a final answer. -/
+/-- F36, open: `Hangs` is reachable with the code as it is now — one silent or dead
+    worker and a SoftStop / LoadState is never answered. -/
 theorem C09_one_final_answer_counterexample_no_deadline :
-    finalsOf 0 (run (Hub.init false false false 10 2)
-      [.request 0 (.loadState 1), .response 0 ⟨0, 0, 1⟩ .ok, .close 1, .advance 1000, .tick]).log = 0 ∧
-    finalsOf 0 (run (Hub.init false false false 10 1) [.request 0 .softStop, .close 0, .advance 1000, .tick]).log = 0 ∧
-    -- still so with the code as it is now (open finding)
     finalsOf 0 (run (Hub.init true true true 10 2)
       [.request 0 (.loadState 1), .response 0 ⟨0, 0, 1⟩ .ok, .close 1, .advance 1000, .tick]).log = 0 ∧
-    finalsOf 0 (run (Hub.init true true true 10 1) [.request 0 .softStop, .close 0, .advance 1000, .tick]).log = 0 := by
+    finalsOf 0 (run (Hub.init true true true 10 1) [.request 0 .softStop, .close 0, .advance 1000, .tick]).log = 0 ∧
+    (∃ t ∈ (run (Hub.init true true true 10 1) [.request 0 .softStop, .close 0, .advance 1000]).tasks,
+      t.req = 0 ∧ t.verb.hasDeadline = false ∧ hasFinished t = false) := by
   decide
 
-/-- a stop verb that completes shuts the main process down: a request that is
-    still pending then is never answered (its client's session is closed). -/
+/-- F37, open: `ShutDown` is reachable — a stop verb that completes shuts the main
+    process down and a request still pending then is never answered. -/
 theorem C09_one_final_answer_counterexample_shutdown :
-    finalsOf 0 (run (Hub.init false false false 10 1)
-      [.request 0 .worker, .request 1 .hardStop, .response 0 ⟨0, 1, 0⟩ .ok, .tick, .advance 1000, .tick]).log = 0 ∧
-    -- still so with the code as it is now (open finding)
     finalsOf 0 (run (Hub.init true true true 10 1)
-      [.request 0 .worker, .request 1 .hardStop, .response 0 ⟨0, 1, 0⟩ .ok, .tick, .advance 1000, .tick]).log = 0 := by
+      [.request 0 .worker, .request 1 .hardStop, .response 0 ⟨0, 1, 0⟩ .ok, .tick, .advance 1000, .tick]).log = 0 ∧
+    (run (Hub.init true true true 10 1)
+      [.request 0 .worker, .request 1 .hardStop, .response 0 ⟨0, 1, 0⟩ .ok, .tick]).run = .exited := by
   decide
 
 -- ============================================================ termination ==
@@ -221,38 +205,18 @@ theorem C09_terminates (fwd excl ret : Bool) (T n : Nat) (ops : List Op)
     (halive : (run (Hub.init fwd excl ret T n) ops).run ≠ .exited) :
     ∀ t ∈ (step (run (Hub.init fwd excl ret T n) ops) .tick).tasks,
       hasFinished t = false ∧
-      (t.verb.hasDeadline = true → (run (Hub.init fwd excl ret T n) ops).now ≤ t.born + T) := by
-  intro t ht
-  have hi := inv_run _ ops (inv_init fwd excl ret T n)
-  have hT : (run (Hub.init fwd excl ret T n) ops).timeout = T := by rw [(run_cfg _ ops).2.2]; rfl
-  generalize run (Hub.init fwd excl ret T n) ops = s at *
-  have hnd := tick_clears s halive t ht
-  have hmem : t ∈ s.tasks := by
-    simp only [step, tick, halive, if_false, List.mem_filter] at ht; exact ht.1
-  simp only [isDone, Bool.or_eq_false_iff] at hnd
-  refine ⟨hnd.1, fun hd => ?_⟩
-  have := (hi.timed t hmem).2
-  rw [hd, if_pos rfl, hT] at this
-  simp only [deadlinePassed, this, decide_eq_false_iff_not] at hnd
-  omega
+      (t.verb.hasDeadline = true → (run (Hub.init fwd excl ret T n) ops).now ≤ t.born + T) :=
+  terminates_core fwd excl ret T n ops halive
 
-example : (run (Hub.init false false false 10 2) [.request 0 .worker, .advance 5]).run ≠ .exited ∧
-    (step (run (Hub.init false false false 10 2) [.request 0 .worker, .advance 5]) .tick).tasks ≠ [] := by decide
+example : (run (Hub.init true true true 10 2) [.request 0 .worker, .advance 5]).run ≠ .exited ∧
+    (step (run (Hub.init true true true 10 2) [.request 0 .worker, .advance 5]) .tick).tasks ≠ [] := by decide
 
-/-- `Timeout::None` verbs have no such bound -/
+/-- `Timeout::None` verbs have no such bound (open finding F36) -/
 theorem C09_terminates_counterexample_no_deadline :
-    (run (Hub.init false false false 10 1) [.request 0 (.loadState 1), .advance 100000, .tick]).tasks ≠ [] ∧
     (run (Hub.init true true true 10 1) [.request 0 (.loadState 1), .advance 100000, .tick]).tasks ≠ [] := by
   decide
 
 -- =============================================================== verdict ==
-
-/-- no worker answer was counted twice: every id is answered at most once with
-    a terminal status in the event sequence -/
-def NoDuplicateAnswers (ops : List Op) : Prop := (opRids ops).Nodup
-
-instance (ops : List Op) : Decidable (NoDuplicateAnswers ops) := by
-  unfold NoDuplicateAnswers; infer_instance
 
 /-- two workers; worker 0 acknowledges, worker 1 is silent, the deadline passes -/
 def silentWorkerOps : List Op := [.request 0 .worker, .response 0 ⟨0, 0, 0⟩ .ok, .advance 11, .tick]
@@ -267,102 +231,67 @@ def allAckOps : List Op :=
   [.request 0 .worker, .response 0 ⟨0, 0, 0⟩ .processing, .response 0 ⟨0, 0, 0⟩ .ok,
    .response 1 ⟨1, 0, 0⟩ .ok, .tick]
 
+/-- a verdict violates "Ok ⇒ all acknowledged" -/
+def ackViolation (e : Emit) : Bool :=
+  match e.src with
+  | some (t, _) => e.kind = .ok && t.verb = .worker && !decide (AllAcked t)
+  | none => false
+
 /-- **C09 (the ids of a task are those of the workers alive at dispatch).** -/
 theorem C09_dispatch_targets_live (h : Hub) (c : Nat) (v : Verb) (rid : Rid) :
     rid ∈ (newTask h c v).sent ↔
-      (rid.task = h.nextTask ∧ rid.sub ∈ v.subs ∧ (rid.worker, false) ∈ h.workers) := by
-  simp only [newTask, allRids, ridsFor, liveWorkers, List.mem_flatMap, List.mem_map, List.mem_filter]
-  constructor
-  · rintro ⟨sub, hsub, w, ⟨⟨w', st⟩, ⟨hw, hst⟩, rfl⟩, rfl⟩
-    simp only [Bool.not_eq_eq_eq_not, Bool.not_true] at hst
-    subst hst
-    exact ⟨rfl, hsub, hw⟩
-  · rintro ⟨h1, h2, h3⟩
-    refine ⟨rid.sub, h2, rid.worker, ⟨(rid.worker, false), ⟨h3, by simp⟩, rfl⟩, ?_⟩
-    cases rid; simp_all
+      (rid.task = h.nextTask ∧ rid.sub ∈ v.subs ∧ (rid.worker, false) ∈ h.workers) :=
+  newTask_sent_iff h c v rid
 
-/-- **C09 (Ok ⇒ every worker acknowledged), every code shape.** For every event
-    sequence: when a mutating request (`worker_request`) or a LoadState is
-    answered Ok, then every id scattered for it (one per worker alive at
-    dispatch and per scattered request) was answered Ok and no worker answered
-    Failure — provided (i) no id is answered twice in the event sequence, or
-    answered ids are retired (`ret = true`), and (ii) the verdict was not taken
-    on the deadline path, or the deadline path forwards `timed_out`
-    (`fwd = true`). Both provisos hold for the repaired code (`C09_ok_iff_all_acked`);
-    each is necessary for the code as it was (counterexamples below). -/
+example : (⟨1, 0, 0⟩ : Rid) ∈ (newTask (Hub.init true true true 10 2) 0 .worker).sent ∧
+    (⟨1, 0, 0⟩ : Rid) ∉ (newTask (run (Hub.init true true true 10 2) [.close 1]) 0 .worker).sent := by decide
+
+/-- **C09 (Ok ⇒ every worker acknowledged), every code shape.** A mutating
+    request or LoadState answered Ok had every scattered id answered Ok and no
+    Failure counted — provided (i) no id is answered twice in the event
+    sequence, or answered ids are retired (`ret = true`), and (ii) the verdict
+    was not taken on the deadline path, or the deadline path forwards
+    `timed_out` (`fwd = true`). Each proviso is necessary for the code as it was
+    (counterexamples below); both hold for the code as it is now. -/
 theorem C09_ok_iff_all_acked_partial (fwd excl ret : Bool) (T n : Nat) (ops : List Op)
     (hnd : ret = true ∨ NoDuplicateAnswers ops)
     (e : Emit) (he : e ∈ (run (Hub.init fwd excl ret T n) ops).log)
     (t : Task) (to : Bool) (hsrc : e.src = some (t, to)) (hk : e.kind = .ok)
     (hverb : t.verb = .worker ∨ ∃ k, t.verb = .loadState k) (hpath : fwd = true ∨ to = false) :
-    AllAcked t ∧ ∀ g ∈ t.got, g.2.2 ≠ .failure := by
-  have hi := inv_run _ ops (inv_init fwd excl ret T n)
-  have hcfg := run_cfg (Hub.init fwd excl ret T n) ops
-  have hseen := seen_run (Hub.init fwd excl ret T n) ops
-  have hlt := logTimed_run fwd excl ret T n ops
-  have hret : ret = true → Retired (run (Hub.init fwd excl ret T n) ops) := by
-    intro h; subst h; exact retired_run fwd excl T n ops
-  generalize run (Hub.init fwd excl ret T n) ops = s at *
-  obtain ⟨hti, hto, _, _, hkind⟩ := hi.acc.log e he t to hsrc
-  have hfwd : s.fwd = fwd := hcfg.1
-  rw [hk, hfwd] at hkind
-  -- the verdict rules: no error counted, and the verdict was not a deadline verdict
-  have hboth : t.errors = 0 ∧ to = false := by
-    rcases hverb with hv | ⟨k, hv⟩
-    · obtain ⟨herr, hpassed⟩ := verdict_worker_ok _ t _ hv hkind
-      refine ⟨herr, ?_⟩
-      rcases hpath with hp | hp
-      · subst hp; simpa using hpassed
-      · exact hp
-    · refine ⟨verdict_load_ok _ t _ k hv hkind, ?_⟩
-      -- LoadState is gathered without a deadline: it is only released once finished
-      cases hto' : to with
-      | false => rfl
-      | true => have := hlt e he t to hsrc hto'; simp [hv, Verb.hasDeadline] at this
-  obtain ⟨herr, hto'⟩ := hboth
-  have hfin : hasFinished t = true := by
-    have h0 : timedOut t = false := by rw [← hto, hto']
-    simpa [timedOut] using h0
-  simp only [hasFinished, decide_eq_true_eq] at hfin
-  have hnodup : (termRids t.got).Nodup := by
-    rcases hnd with hnd | hnd
-    · exact (hret hnd).log e he t to hsrc
-    · rw [List.nodup_iff_count]
-      intro rid
-      have h1 := hti.counted rid
-      have h2 := hseen rid
-      have h3 : (opRids ops).count rid ≤ 1 := List.nodup_iff_count.mp hnd rid
-      simp only [Hub.init, List.count_nil, Nat.zero_add] at h2
-      omega
-  exact ack_core s.seen t hti herr hfin hnodup
+    AllAcked t ∧ ∀ g ∈ t.got, g.2.2 ≠ .failure :=
+  ok_all_acked_core fwd excl ret T n ops hnd e he t to hsrc hk hverb hpath
 
-/-- **C09 (Ok ⇒ every worker acknowledged), the repaired code, full strength.**
-    With `timed_out` forwarded and answered ids retired (the code as it is now:
-    `Consts.hubForwardsTimedOut`, `Consts.hubRetiresAnsweredIds`), for EVERY
-    event sequence — silent, dead, slow, duplicate-answering, impersonating
-    workers included — a mutating request or LoadState answered Ok was
-    acknowledged with Ok for every id scattered to the workers alive at
-    dispatch, and no Failure was counted. No hypothesis on the workers. -/
+example :
+    NoDuplicateAnswers allAckOps ∧
+    ((run (Hub.init false false false 10 2) allAckOps).log.any (fun e => e.kind = .ok && e.src.isSome)) = true ∧
+    ((run (Hub.init false false false 10 2) allAckOps).log.any ackViolation) = false := by
+  decide
+
+/-- **C09 (Ok ⇒ every worker acknowledged), the code as it is now, EVERY verb.**
+    For every event sequence — silent, dead, slow, duplicate-answering workers
+    included, no hypothesis on them — a gathered request answered Ok had every
+    id scattered to the workers alive at dispatch answered Ok, and no Failure
+    was counted, unless its verb is one whose verdict ignores the workers
+    (`VerdictIgnoresWorkers`: query / status / metrics and the stop verbs, open
+    findings F38, F39). -/
+theorem C09_ok_iff_all_acked_all_verbs (excl : Bool) (T n : Nat) (ops : List Op)
+    (e : Emit) (he : e ∈ (run (Hub.init true excl true T n) ops).log)
+    (t : Task) (to : Bool) (hsrc : e.src = some (t, to)) (hk : e.kind = .ok)
+    (hverb : ¬ VerdictIgnoresWorkers t.verb) :
+    AllAcked t ∧ ∀ g ∈ t.got, g.2.2 ≠ .failure :=
+  ok_all_acked_core true excl true T n ops (Or.inl rfl) e he t to hsrc hk
+    (gathering_verb_cases true excl true T n ops e he t to hsrc hverb) (Or.inl rfl)
+
+/-- the same, stated for the verbs it covers -/
 theorem C09_ok_iff_all_acked (excl : Bool) (T n : Nat) (ops : List Op)
     (e : Emit) (he : e ∈ (run (Hub.init true excl true T n) ops).log)
     (t : Task) (to : Bool) (hsrc : e.src = some (t, to)) (hk : e.kind = .ok)
     (hverb : t.verb = .worker ∨ ∃ k, t.verb = .loadState k) :
     AllAcked t ∧ ∀ g ∈ t.got, g.2.2 ≠ .failure :=
-  C09_ok_iff_all_acked_partial true excl true T n ops (Or.inl rfl) e he t to hsrc hk hverb (Or.inl rfl)
+  ok_all_acked_core true excl true T n ops (Or.inl rfl) e he t to hsrc hk hverb (Or.inl rfl)
 
-/-- **C09 (the code has the repaired shape).** The flags the translator reads from
-    the source now are those of the full-strength theorems (`C09_ok_iff_all_acked`,
-    `C09_one_final_answer`): the hub the driver runs against the real code,
-    `Hub.ofCode`, is `Hub.init true true true`. Stops compiling — a broken
-    obligation — when a later change reverts one of the repairs. -/
-theorem C09_code_has_repaired_shape (T n : Nat) :
-    Hub.ofCode T n = Hub.init true true true T n ∧ Consts.hubAnswersUnsupportedVerbs = true := by
-  constructor
-  · rfl
-  · decide
-
-/-- non-vacuity on the repaired shape: an Ok verdict exists, and the former
-    witnesses (silent worker, closed worker, duplicate answer) now end as failures -/
+/-- non-vacuity on the code as it is now: an Ok verdict exists, and the former
+    witnesses (silent worker, closed worker, duplicate answer) end as failures -/
 example :
     (run (Hub.init true true true 10 2) allAckOps).log.any (fun e => e.kind = .ok && e.src.isSome) = true ∧
     (run (Hub.init true true true 10 2) silentWorkerOps).log.any (fun e => e.kind = .ok && e.src.isSome) = false ∧
@@ -371,18 +300,24 @@ example :
       (fun e => e.kind = .ok && e.src.isSome) = false := by
   decide
 
-/-- a verdict violates "Ok ⇒ all acknowledged" -/
-def ackViolation (e : Emit) : Bool :=
-  match e.src with
-  | some (t, _) => e.kind = .ok && t.verb = .worker && !decide (AllAcked t)
-  | none => false
+/-- **C09 (F38 / F39 exactly).** The verdict of a query / status / metrics verb and
+    of SoftStop is Ok whatever the workers answered, and the verdict of HardStop
+    is Ok unless its deadline passed: for every event sequence, with the code as
+    it is now. (This is what the open findings `query-ok-without-all-workers`
+    and `stop-ok-without-all-workers` observe.) -/
+theorem C09_verdict_ignores_workers (ret : Bool) (T n : Nat) (ops : List Op)
+    (e : Emit) (he : e ∈ (run (Hub.init true true ret T n) ops).log)
+    (t : Task) (to : Bool) (hsrc : e.src = some (t, to)) :
+    (t.verb = .query ∨ t.verb = .softStop → e.kind = .ok) ∧
+    (t.verb = .hardStop → (e.kind = .ok ↔ to = false)) :=
+  verdict_ignores_core ret T n ops e he t to hsrc
 
-/-- the hypotheses of the partial theorem are satisfiable (two workers, both
-    acknowledge; one also sends a Processing notice) -/
-example :
-    NoDuplicateAnswers allAckOps ∧
-    ((run (Hub.init false false false 10 2) allAckOps).log.any (fun e => e.kind = .ok && e.src.isSome)) = true ∧
-    ((run (Hub.init false false false 10 2) allAckOps).log.any ackViolation) = false := by
+/-- … reachable: Ok although the only worker answered Failure -/
+theorem C09_ok_iff_all_acked_counterexample_query :
+    (run (Hub.init true true true 10 1) [.request 0 .query, .response 0 ⟨0, 0, 0⟩ .failure, .tick]).log.any
+      (fun e => e.kind = .ok && e.src.isSome) = true ∧
+    (run (Hub.init true true true 10 1) [.request 0 .softStop, .response 0 ⟨0, 0, 0⟩ .failure, .tick]).log.any
+      (fun e => e.kind = .ok && e.src.isSome) = true := by
   decide
 
 /-- F17 (repaired in /repo): with `fwd = false`, the code as it was, a silent worker and the
@@ -398,61 +333,62 @@ theorem C09_ok_iff_all_acked_counterexample_closed_worker :
       (run (Hub.init false false false 10 2) closedWorkerOps).log.any ackViolation = true := by
   decide
 
-/-- a duplicate answer is counted twice (the in-flight id is not retired when
-    answered): Ok at once although worker 1 never answered — also when the
-    deadline path is repaired (`fwd = true`). -/
+/-- F35 (repaired in /repo): a duplicate answer was counted twice (the in-flight id
+    was not retired when answered): Ok at once although worker 1 never answered —
+    also with the deadline path repaired alone (`fwd = true`, `ret = false`). -/
 theorem C09_ok_iff_all_acked_counterexample_duplicate :
     ¬ NoDuplicateAnswers duplicateOps ∧
       (run (Hub.init true true false 10 2) duplicateOps).log.any ackViolation = true ∧
       (run (Hub.init false false false 10 2) duplicateOps).log.any ackViolation = true := by
   decide
 
-/-- with ids retired once answered, the duplicate no longer counts: the task waits
-    for worker 1 and (deadline path repaired too) ends as a failure -/
-example :
-    (run (Hub.init true true true 10 2) (duplicateOps ++ [.advance 11, .tick])).log.any ackViolation = false ∧
-    (run (Hub.init true true true 10 2) (duplicateOps ++ [.advance 11, .tick])).log.any
-      (fun e => e.kind = .failure) = true := by
-  decide
-
-/-- with the deadline path repaired and no duplicates the silent worker gives a failure -/
-example :
-    (run (Hub.init true true false 10 2) silentWorkerOps).log.any ackViolation = false ∧
-    finalsOf 0 (run (Hub.init true true false 10 2) silentWorkerOps).log = 1 ∧
-    (run (Hub.init true true false 10 2) silentWorkerOps).log.any (fun e => e.kind = .failure) = true := by
-  decide
-
 /-- **C09 (a reported failure is never turned into Ok).** For every event
-    sequence and both code shapes: a mutating request or a LoadState answered
+    sequence and every code shape: a mutating request or a LoadState answered
     Ok has no Failure among the responses its task counted. -/
 theorem C09_failure_reported_means_failure (fwd excl ret : Bool) (T n : Nat) (ops : List Op)
     (e : Emit) (he : e ∈ (run (Hub.init fwd excl ret T n) ops).log)
     (t : Task) (to : Bool) (hsrc : e.src = some (t, to)) (hk : e.kind = .ok)
     (hverb : t.verb = .worker ∨ ∃ k, t.verb = .loadState k) :
-    ∀ g ∈ t.got, g.2.2 ≠ .failure := by
-  have hi := inv_run _ ops (inv_init fwd excl ret T n)
-  generalize run (Hub.init fwd excl ret T n) ops = s at *
-  obtain ⟨hti, _, _, _, hkind⟩ := hi.acc.log e he t to hsrc
-  rw [hk] at hkind
-  have herr : t.errors = 0 := by
-    rcases hverb with hv | ⟨k, hv⟩
-    · exact (verdict_worker_ok _ t _ hv hkind).1
-    · exact verdict_load_ok _ t _ k hv hkind
-  have h0 : failCount t.got = 0 := by rw [← hti.errors]; exact herr
-  simp only [failCount, List.countP_eq_zero] at h0
-  intro g hg hgf; exact h0 g hg (by simp [hgf])
+    ∀ g ∈ t.got, g.2.2 ≠ .failure :=
+  no_failure_core fwd excl ret T n ops e he t to hsrc hk hverb
 
-example : ∃ e ∈ (run (Hub.init false false false 10 1) [.request 0 .worker, .response 0 ⟨0, 0, 0⟩ .ok, .tick]).log,
+example : ∃ e ∈ (run (Hub.init true true true 10 1) [.request 0 .worker, .response 0 ⟨0, 0, 0⟩ .ok, .tick]).log,
     e.kind = .ok ∧ e.src.isSome = true := by decide
 
-/-- query / status / metrics and stop verbs answer Ok whatever the workers said —
-    also with the code as it is now (open findings) -/
-theorem C09_ok_iff_all_acked_counterexample_query :
-    (run (Hub.init true true true 10 1) [.request 0 .query, .response 0 ⟨0, 0, 0⟩ .failure, .tick]).log.any
-      (fun e => e.kind = .ok && e.src.isSome) = true ∧
-    (run (Hub.init true true true 10 1) [.request 0 .softStop, .response 0 ⟨0, 0, 0⟩ .failure, .tick]).log.any
-      (fun e => e.kind = .ok && e.src.isSome) = true := by
-  decide
+/-- **C09 (the code has the repaired shape).** The flags the translator reads from
+    the source now are those of the full-strength theorems: the hub the driver
+    runs against the real code, `Hub.ofCode`, is `Hub.init true true true`.
+    Stops compiling — a broken obligation — when a later change reverts one of
+    the repairs. -/
+theorem C09_code_has_repaired_shape (T n : Nat) :
+    Hub.ofCode T n = Hub.init true true true T n ∧ Consts.hubAnswersUnsupportedVerbs = true := by
+  constructor
+  · rfl
+  · decide
+
+-- ================================================= load_state request ids ==
+
+/-- **C09 (LoadState request ids are unique across buffer fills).** Whatever the
+    sizes of the batches the read loop parses, the request indices it hands to
+    `scatter_on` are `1 … Σ batches`, all different — the batching is not
+    observable (it is the `Verb.loadState (Σ batches)` of the model) — and in
+    every reachable state the ids scattered for ANY verb (every index × every
+    worker alive) are pairwise distinct, so no in-flight entry is overwritten
+    and `expected_responses` equals the number of in-flight ids. -/
+theorem C09_loadstate_ids_unique (batches : List Nat) :
+    loadSubs batches = (Verb.loadState batches.sum).subs ∧ (loadSubs batches).Nodup ∧
+    ∀ (fwd excl ret : Bool) (T n : Nat) (ops : List Op) (c : Nat) (v : Verb),
+      (newTask (run (Hub.init fwd excl ret T n) ops) c v).sent.Nodup :=
+  ⟨loadSubs_eq batches, loadSubs_eq batches ▸ subs_nodup _,
+   fun fwd excl ret T n ops c v => newTask_sent_nodup fwd excl ret T n ops c v⟩
+
+example : loadSubs [2, 3, 1] = [1, 2, 3, 4, 5, 6] ∧
+    (newTask (Hub.init true true true 10 2) 0 (.loadState 3)).sent.length = 6 := by decide
+
+/-- the seeded refactor (`enumerate()` inside the batch loop: the index restarts
+    at every buffer fill) breaks it: two requests of one LoadState share an id -/
+theorem C09_loadstate_ids_unique_counterexample :
+    ¬ (loadSubsRestarting [2, 2]).Nodup := by decide
 
 -- ============================================================ no cross talk ==
 
@@ -466,10 +402,12 @@ theorem C09_no_cross_talk_response (fwd excl ret : Bool) (T n : Nat) (ops : List
     let s := run (Hub.init fwd excl ret T n) ops
     (∀ t ∈ s.tasks, rid ∉ t.sent → t ∈ (step s (.response w rid st)).tasks) ∧
     ∃ l, (step s (.response w rid st)).log = s.log ++ l ∧
-      ∀ e ∈ l, e.kind = .processing ∧ ∃ t ∈ s.tasks, rid ∈ t.sent ∧ e.req = t.req ∧ e.client = t.client := by
-  intro s
-  have hi := inv_run _ ops (inv_init fwd excl ret T n)
-  exact ⟨fun t ht hn => response_frame s hi.acc w rid st t ht hn, response_emits s hi.acc w rid st⟩
+      ∀ e ∈ l, e.kind = .processing ∧ ∃ t ∈ s.tasks, rid ∈ t.sent ∧ e.req = t.req ∧ e.client = t.client :=
+  no_cross_talk_response_core fwd excl ret T n ops w rid st
+
+example :
+    let s := run (Hub.init true true true 10 2) [.request 7 .worker, .request 9 .worker]
+    (step s (.response 0 ⟨0, 1, 0⟩ .failure)).tasks.map (·.errors) = [0, 1] := by decide
 
 /-- **C09 (answers reach the requesting client only).** For every event
     sequence: every message the main process queues about a request — notices,
@@ -478,22 +416,30 @@ theorem C09_no_cross_talk_response (fwd excl ret : Bool) (T n : Nat) (ops : List
 theorem C09_no_cross_talk (fwd excl ret : Bool) (T n : Nat) (pre post : List Op) (c : Nat) (v : Verb)
     (halive : (run (Hub.init fwd excl ret T n) pre).run ≠ .exited) :
     ∀ e ∈ (run (Hub.init fwd excl ret T n) (pre ++ [.request c v] ++ post)).log,
-      e.req = (run (Hub.init fwd excl ret T n) pre).nextReq → e.client = c := by
-  generalize hs0 : Hub.init fwd excl ret T n = s0 at *
-  have hi0 : Inv s0 := hs0 ▸ inv_init fwd excl ret T n
-  generalize hs1 : run s0 pre = s1 at *
-  have hi1 : Inv s1 := hs1 ▸ inv_run s0 pre hi0
-  have e2 : run s0 (pre ++ [.request c v] ++ post) = run (step s1 (.request c v)) post := by
-    rw [run_append, run_append, hs1]; rfl
-  rw [e2]
-  have hr2 : s1.nextReq < (step s1 (.request c v)).nextReq := by
-    have := step_nextReq s1 (.request c v); simp only [halive, if_false] at this; omega
-  exact logOwned_run (step s1 (.request c v)) post (bounds_step s1 _ hi1.bounds) s1.nextReq c v s1.now hr2
-    (owned_request s1 c v hi1.bounds) (logOwned_request s1 c v hi1.bounds)
+      e.req = (run (Hub.init fwd excl ret T n) pre).nextReq → e.client = c :=
+  no_cross_talk_core fwd excl ret T n pre post c v halive
+
+/-- **C09 (no cross-talk between concurrent clients, whole histories).** For every
+    event sequence with any number of clients and overlapping requests: all the
+    messages about one request name one client (so two clients never share a
+    request), and for two requests sent by different clients at any two points
+    of the history, no message about the first is addressed to the second
+    client and vice versa. -/
+theorem C09_no_cross_talk_concurrent (fwd excl ret : Bool) (T n : Nat) :
+    (∀ (ops : List Op), ∀ e1 ∈ (run (Hub.init fwd excl ret T n) ops).log,
+        ∀ e2 ∈ (run (Hub.init fwd excl ret T n) ops).log, e1.req = e2.req → e1.client = e2.client) ∧
+    (∀ (pre mid post : List Op) (c1 c2 : Nat) (v1 v2 : Verb), c1 ≠ c2 →
+      (run (Hub.init fwd excl ret T n) pre).run ≠ .exited →
+      (run (Hub.init fwd excl ret T n) (pre ++ [.request c1 v1] ++ mid)).run ≠ .exited →
+      ∀ e ∈ (run (Hub.init fwd excl ret T n) (pre ++ [.request c1 v1] ++ mid ++ [.request c2 v2] ++ post)).log,
+        (e.req = (run (Hub.init fwd excl ret T n) pre).nextReq → e.client ≠ c2) ∧
+        (e.req = (run (Hub.init fwd excl ret T n) (pre ++ [.request c1 v1] ++ mid)).nextReq → e.client ≠ c1)) :=
+  ⟨fun ops => (reqClient_run fwd excl ret T n ops).log_log,
+   fun pre mid post c1 c2 v1 v2 hne h1 h2 => no_cross_talk_two fwd excl ret T n pre mid post c1 c2 v1 v2 hne h1 h2⟩
 
 /-- two clients, interleaved answers: each verdict goes to its own client -/
 example :
-    let s := run (Hub.init false false false 10 2)
+    let s := run (Hub.init true true true 10 2)
       [.request 7 .worker, .request 9 .worker, .response 0 ⟨0, 1, 0⟩ .ok, .response 1 ⟨1, 1, 0⟩ .failure,
        .response 0 ⟨0, 0, 0⟩ .ok, .response 1 ⟨1, 0, 0⟩ .ok, .tick]
     s.log.filterMap (fun e => if e.isFinal then some (e.req, e.client, e.kind) else none)
